@@ -15,7 +15,7 @@ Inductive entry :=
 
 (* src/entry.rs:23-39 *)
 Definition entry_of (k : K) : M entry :=
-  r <- scan (test_k E k) ;;
+  r <- on_unwind (unwind_key E k) (scan (test_k E k)) ;;
   match r with
   | Some i => drop_key E k ;; ret (Occupied i)   (* k is not kept: destroyed at function exit *)
   | None => ret (Vacant k)
